@@ -10,7 +10,7 @@ import vlib
 from props import fam_pdb as F
 
 
-MANIFEST = {'technique': 'Coq proof (atom-site flatten/regroup inverse by induction; sub-chain naming injective for all counters and chain names) + differential check of row order + mmCIF/PDB round-trip oracles on gemmi', 'text': 'The PDB-vs-mmCIF oracle also writes both files from the ORIGINAL structure and compares the connections, so that a defect of one writer cannot hide by feeding the other route. Theorem C07_regroup_flatten: for every structure satisfying the stated well-formedness (distinct model numbers, adjacent chains differ, residue ids pairwise non-matching within a chain) reading the _atom_site rows written for it regroups to the same models/chains/residues/atoms; the precondition is shown necessary by a refuting witness (equal non-adjacent ids merge). SUB-CHAINS (model of assign_subchain_names / assign_subchains in Pdb/Subchain.v, compared with gemmi on every run incl. runs of 1310 non-polymer residues): the suffix of the k-th non-polymer residue decodes back to k for EVERY k (base 36 of any length); chain name + x + suffix identifies chain name and residue class for every chain name (also names containing x); every non-polymer residue of a model gets a sub-chain of its own for any number of chains and residues, also when chains share a name. Oracles on gemmi: structure -> mmCIF -> structure -> mmCIF byte-identical + structure equality x 17 output-group switches (names needing every quote style, multi-character chains, long residue names, negative/large numbers, several models); PDB route vs mmCIF route give the same structure. PARTIAL: entity records, assemblies, connections, secondary structure, sequences, 9-digit number formatting and the PDB/mmCIF agreement are decided by the oracles only.', 'note': 'Trusted: Coq kernel; extraction; harness. No axioms. CIF quoting is property C01.'}
+MANIFEST = {'technique': 'Coq proof (atom-site flatten/regroup inverse by induction; sub-chain naming injective for all counters and chain names; aliases of long residue names pairwise distinct and restore o shorten = id for every name list) + differential check of row order + mmCIF/PDB round-trip oracles on gemmi', 'text': 'LONG RESIDUE NAMES (Pdb/CcdAlias.v models shorten_ccd_codes / restore_full_ccd_codes of polyheur.cpp - collection of the distinct long names, the tilde + last-two-characters pass, the numbered fall-back pass with its shared counter, both renaming loops): for every list of residue names the aliases are pairwise distinct and of the shape ~xy, the table holds exactly the long names once each, every shortened name fits three characters and restoring returns the original list (no name may start with the reserved ~; aliases not run out); compared exactly with gemmi on generated name lists (shared endings, endings that collide with the numbered aliases, repeats) and, as an oracle, through a PDB file and an mmCIF file of the shortened structure. The o_cif oracle also sets the optional per-atom mmCIF attributes calc_flag and TLS group id (each alone, both, neither). The PDB-vs-mmCIF oracle also writes both files from the ORIGINAL structure and compares the connections, so that a defect of one writer cannot hide by feeding the other route. Theorem C07_regroup_flatten: for every structure satisfying the stated well-formedness (distinct model numbers, adjacent chains differ, residue ids pairwise non-matching within a chain) reading the _atom_site rows written for it regroups to the same models/chains/residues/atoms; the precondition is shown necessary by a refuting witness (equal non-adjacent ids merge). SUB-CHAINS (model of assign_subchain_names / assign_subchains in Pdb/Subchain.v, compared with gemmi on every run incl. runs of 1310 non-polymer residues): the suffix of the k-th non-polymer residue decodes back to k for EVERY k (base 36 of any length); chain name + x + suffix identifies chain name and residue class for every chain name (also names containing x); every non-polymer residue of a model gets a sub-chain of its own for any number of chains and residues, also when chains share a name. Oracles on gemmi: structure -> mmCIF -> structure -> mmCIF byte-identical + structure equality x 17 output-group switches (names needing every quote style, multi-character chains, long residue names, negative/large numbers, several models); PDB route vs mmCIF route give the same structure. PARTIAL: entity records, assemblies, connections, secondary structure, sequences, 9-digit number formatting and the PDB/mmCIF agreement are decided by the oracles only.', 'note': 'Trusted: Coq kernel; extraction; harness. No axioms. CIF quoting is property C01.'}
 
 def gen_lines(rng, quick):
     lines = []
@@ -27,6 +27,23 @@ def gen_lines(rng, quick):
     for _ in range(n // 2):
         lines.append('rows\t%d %d %d %d %d' % (rng.randrange(1, 2 ** 40), rng.choice([1, 2, 3]), rng.choice([1, 2, 4]),
                                                rng.choice([1, 3, 6]), rng.choice([0, 0, 1, 2, 3])))
+    # residue names longer than 3 characters and their aliases (shorten_ccd_codes / restore_full_ccd_codes, model
+    # Pdb/CcdAlias.v): long names that share their last two characters, names ending in digits that collide with the
+    # numbered fall-back aliases ~00, ~01 ..., repeated names, short names in between
+    def hx(t):
+        return t.encode().hex() if t else '-'
+    pool = ['A1BCD', 'A2BCD', 'B3BCD', 'LONGN', 'XXLGN', 'ABCD', 'WXCD', 'A1B00', 'C9D00', 'Q0001', 'Z9901', 'ABC01', 'ABCDEFG',
+            'ALA', 'HOH', 'A', 'MSE', 'CD', 'x00', 'AB~00', 'QQ~01']
+    for i in range(400 if quick else 20000):
+        k = rng.choice([1, 2, 3, 5, 8, 14])
+        names = [rng.choice(pool) for _ in range(k)]
+        if rng.random() < 0.3:      # many different long names with one ending: the numbered aliases are used up in order
+            names = ['%s%dXY' % (rng.choice('ABC'), j) for j in range(rng.choice([3, 12, 30]))]
+        if rng.random() < 0.2:
+            names += ['N%03d' % rng.randrange(0, 120) for _ in range(rng.choice([2, 6]))]
+        args = ' '.join(hx(nm) for nm in names)
+        lines.append('ccd\t' + args)
+        lines.append('o_shorten\t' + args)
     # sub-chain naming (assign_subchains): chain names with 'x' / "xp" tails, repeated names, long runs of non-polymer
     # residues that cross the boundaries of the numbering scheme (9|10, 45|46, 1305|1306, 46665|46666 in the thorough tier)
     def hx(t):
@@ -84,7 +101,7 @@ def run(chk):
         chk.violate('crash', 'h_pdbcif %s on %s' % (kind, line[:200]), err, replay={'harness': 'h_pdbcif', 'line': line})
     chk.extra['correspondence_summary'] = {'compared': res['summary'][0], 'mismatching': res['summary'][1],
                                            'model_silent': res['summary'][2]}
-    chk.rule = ('generated structures (1-3 models, 1-5 chains, names needing CIF quoting, multi-character chain names, 5-character '
+    chk.rule = ('ccd / o_shorten: residue-name lists through shorten_ccd_codes, a PDB file, an mmCIF file and restore_full_ccd_codes vs the alias model; generated structures (1-3 models, 1-5 chains, names needing CIF quoting, multi-character chain names, 5-character '
                 'residue names, negative / hybrid-36-range residue numbers, insertion codes, microheterogeneity, altlocs, aniso, '
                 'NCS, helices, sheets, LINK, cis-peptides, SEQRES/DBREF): o_cif = make_mmcif_document -> read -> '
                 'make_structure_from_block -> make_mmcif_document byte-identical + field-by-field structure equality, x '
